@@ -892,6 +892,10 @@ func RunCodec(outDir string, seed int64, tier string) error {
 	}
 	// the disk path: histories on one real key file store with values growing and shrinking
 	e.diskAll(tier)
+	// the dkg database under concurrent saves of another record
+	if err := e.dkgConcurrent(tier); err != nil {
+		return err
+	}
 	e.rep.Rule = "per scheme: groups of 1, 10 and random size (optional key / seed / transition time, 8 ids), their nodes, identities, distributed keys, chain infos and shares, key pairs (real and random signatures), beacons with arbitrary byte strings, DKG states in every status with and without final group and share; each converted by the real functions (CMir) and sent through TOML text, the key store files, the dkg BoltStore, protobuf wire format and JSON (CRt); group TOML / protobuf and info JSON decoders on threshold / scheme / genesis / period / address / chain_hash perturbations (CDec); histories of SaveKeyPair / SaveShare / SaveGroup / Load* / Reset on one real key file store per scheme and per pair of schemes, with thresholds, group sizes and scheme names going down and up, every load compared with the value written last (CDisk); distinct = distinct case text; non-trivial = all (every case carries a non-empty value)"
 	return e.finish(outDir, "cases_codec", 40)
 }
